@@ -144,8 +144,8 @@ Proof. repeat split; vm_compute; reflexivity. Qed.
 (* ETA, ETA2 joint with covariance N1: splitting ETA2 off gives two normal distributions and drops N1 only *)
 Example split_joint_nonvacuous :
   let m := mkPM pheno_prog [(sT1, 1%Q, false); (sOM, (1#10)%Q, false); (sN1, (1#100)%Q, false); (sOM2, (1#10)%Q, false)]
-                [DJoint [sETA; sETA2] [[[sOM]; [sN1]]; [[sN1]; [sOM2]]]; DNormal sE1 [sN2]] [sY] in
+                [DJoint [sETA; sETA2] [[[sOM]; [sN1]]; [[sN1]; [sOM2]]]; DNormal sE1 [sN2]] [sY] 1%positive in
   pm_rvs (split_joint [sETA2] m) = [DNormal sETA2 [sOM2]; DNormal sETA [sOM]; DNormal sE1 [sN2]] /\
   map (fun p => fst (fst p)) (pm_params (split_joint [sETA2] m)) = [sT1; sOM; sOM2] /\
-  same_structure m (mkPM pheno_prog (pm_params m ++ [(sN2, 0%Q, false)]) (rev (pm_rvs m)) [sY]) = true.
+  same_structure m (mkPM pheno_prog (pm_params m ++ [(sN2, 0%Q, false)]) (rev (pm_rvs m)) [sY] 1%positive) = true.
 Proof. repeat split; vm_compute; reflexivity. Qed.
